@@ -2,5 +2,5 @@
 from . import latfam, util
 
 globals().update(latfam.module('C02', util.theorems('C02'),
-    'contexts: EXH/FAM/WIDE/RND; queries: all non-empty subsets of either side (<=5 quick / 8 thorough members, else structured+random), duplicates, mixed and unknown labels; lattice[items], lattice(props), lattice[()], lattice(()), lattice[i]; non-trivial = closure strictly larger than some query; distinct by table',
-    extra_targets=['Tie/Matrices.vo'], partial=''))
+    'contexts: EXH(9 quick, 10 thorough)/FAM/WIDE/RND; queries: all non-empty subsets of either side (<=5 quick / 6 thorough members, else structured+random), duplicates, mixed and unknown labels; lattice[items], lattice(props), lattice[()], lattice(()), lattice[i]; non-trivial = closure strictly larger than some query; distinct by table',
+    extra_targets=['Tie/Matrices.vo'], partial='', exh=(9, 10)))
